@@ -186,6 +186,10 @@ class World:
         self.reg.register([self.I0], self.P, '', self.fOLD)
         self.reg.subscribe([self.I0], self.P, F('S_OLD', self))
         self.base.register([self.I0], self.P, 'b', F('BASE', self))
+        # the registry that is nobody's base at first has something to offer
+        # under a name of its own: whoever starts to derive from it shows it
+        self.other.register([self.I0], self.P, 'o', F('OTHER', self))
+        self.other.subscribe([self.I0], self.P, F('S_OTHER', self))
         if extendors:
             # two more provided interfaces extending P, so that the list of
             # extendors walked by a lookup for P is [P, PA, PB]: PA belongs to an
